@@ -35,6 +35,11 @@ let cons_of = function
   | L [A "reduce"; A i; f] -> CReduce (zi i, rfn_of f)
   | L [A "foreach"; g] -> CForEach (fn_of g)
   | _ -> failwith "cons"
+let ad_of = function
+  | L [A "id"] -> AId | L [A "then"; f] -> AThen (fn_of f)
+  | L [A "avia"; A i] -> AVia (ni i) | L [A "atvia"; A i] -> ATypedVia (ni i)
+  | L [A "aon"; A i] -> AOn (ni i) | L [A "adelay"; A i; A d] -> ADelay (ni i, ni d)
+  | _ -> failwith "sadapt"
 let rec ex = function
   | L [A "range"; A a; A b] -> SRange (zi a, zi b)
   | L [A "single"; A v] -> SSingle (zi v)
@@ -45,6 +50,14 @@ let rec ex = function
   | L [A "tu"; s; A t; A r] -> STakeUntil (ex s, ni t, r = "1")
   | L [A "si"; s] -> SStopImm (ex s)
   | L [A "te"; s] -> STypeErase (ex s)
+  | L [A "na"; a; s] -> SNextAdapt (ad_of a, ex s)
+  | L [A "ca"; a; s] -> SCleanupAdapt (ad_of a, ex s)
+  | L [A "ad1"; a; s] -> SAdapt1 (ad_of a, ex s)
+  | L [A "ad2"; a; c; s] -> SAdapt2 (ad_of a, ad_of c, ex s)
+  | L [A "via"; A i; s] -> via_stream (ni i) (ex s)
+  | L [A "tvia"; A i; s] -> typed_via_stream (ni i) (ex s)
+  | L [A "on"; A i; s] -> on_stream (ni i) (ex s)
+  | L [A "delay"; A i; A d; s] -> delay (ni i) (ni d) (ex s)
   | _ -> failwith "stexpr"
 let i z = string_of_int (int_of_z z)
 let n x = string_of_int (int_of_nat x)
@@ -65,6 +78,7 @@ let render = function
   | XT (TOpDel id) -> Printf.sprintf "opdel C %s" (n id)
   | XT (TCall (f, x)) -> Printf.sprintf "call %s %s" (str_fn f) (i x)
   | XT (TPred (p, x)) -> Printf.sprintf "pred %s %s" (str_pred p) (i x)
+  | XT (THop (sid, d)) -> Printf.sprintf "hop %s %s" (n sid) (n d)
   | XT TFire -> "fire"
   | XT (TUaf k) -> "uaf " ^ n k
   | XFeed (a, x) -> Printf.sprintf "feed %s %s" (i a) (i x)
